@@ -22,6 +22,7 @@ import (
 	am "github.com/pancsta/asyncmachine-go/pkg/machine"
 	"github.com/pancsta/asyncmachine-go/pkg/rpc/states"
 	ampipe "github.com/pancsta/asyncmachine-go/pkg/states/pipes"
+	"github.com/pancsta/asyncmachine-go/pkg/x/simhook"
 )
 
 var (
@@ -355,6 +356,11 @@ func (s *Server) RpcStartingState(e *am.Event) {
 		// has to be ctxStart, not ctxRpcStarting TODO why? reconns?
 		if ctxStart.Err() != nil {
 			return // expired
+		}
+		if s.Listener.Load() == nil && s.Conn == nil && s.Opts.WebSocketTunnel == "" {
+			if lis, _, ok := simhook.Listen("tcp4", s.Addr); ok && lis != nil {
+				s.Listener.Store(&lis)
+			}
 		}
 
 		// websocket listener (HTTP)
@@ -708,6 +714,9 @@ func (s *Server) pushClient() {
 	}
 
 	// skip if currently exporting
+	if simhook.Fail("rpc.push.busy", s.Mach.Id()) {
+		return
+	}
 	if !s.lockExport.TryLock() {
 		s.log("skip parallel export")
 		return
@@ -773,6 +782,9 @@ func (s *Server) pushUpdateMutations(muts []tracerMutation) error {
 	s.CallCount++
 
 	// TODO failsafe retry (stateful)
+	if simhook.Fail("rpc.push.drop", s.Mach.Id()) {
+		return nil
+	}
 	return c.Notify(ClientUpdateMutations.Value, updateMuts)
 }
 
@@ -798,6 +810,9 @@ func (s *Server) pushUpdateLatest(data *tracerData) error {
 	// fmt.Printf("[S] time %v\n", data.mTime)
 
 	// TODO failsafe retry (stateful)
+	if simhook.Fail("rpc.push.drop", s.Mach.Id()) {
+		return nil
+	}
 	return c.Notify(ClientUpdate.Value, update)
 }
 
@@ -950,6 +965,7 @@ func (s *Server) RemoteAdd(
 	if s.Mach.Not1(ssS.Start) {
 		return am.ErrCanceled
 	}
+	defer simhook.At("rpc.reply", s.Mach.Id())
 	s.lockExport.Lock()
 	defer s.lockExport.Unlock()
 
@@ -1016,6 +1032,7 @@ func (s *Server) RemoteRemove(
 	if s.Mach.Not1(ssS.Start) {
 		return am.ErrCanceled
 	}
+	defer simhook.At("rpc.reply", s.Mach.Id())
 	s.lockExport.Lock()
 	defer s.lockExport.Unlock()
 
@@ -1047,6 +1064,7 @@ func (s *Server) RemoteSet(
 	if s.Mach.Not1(ssS.Start) {
 		return am.ErrCanceled
 	}
+	defer simhook.At("rpc.reply", s.Mach.Id())
 	s.lockExport.Lock()
 	defer s.lockExport.Unlock()
 
